@@ -8,6 +8,15 @@ loops over the tokens of a field list / value list, induction on the fuel (= nes
 namespace Jomini.TextDe
 open Jomini Jomini.TextDoc
 
+/-! ### plain keys (unquoted, nothing around them): the save-style case -/
+
+@[simp] theorem Key.plain_ttok (b : Bytes) : (⟨b, false, 0, false, 0⟩ : Key).ttok = .unq b := rfl
+@[simp] theorem Key.plain_rtok (b : Bytes) : (⟨b, false, 0, false, 0⟩ : Key).rtok = .unq b := rfl
+@[simp] theorem eqToks_plain (b : Bytes) (o : Op) (v : Node) : eqToks ⟨b, false, 0, false, 0⟩ o v = [.op o] := rfl
+theorem lexFields_plain (b : Bytes) (o : Op) (v : Node) (r : List (Key × Op × Node)) :
+    lexFields ((⟨b, false, 0, false, 0⟩, o, v) :: r) = RTok.unq b :: RTok.op o :: (lexNode v ++ lexFields r) := by
+  simp [lexFields, ghostToks, Key.rtok, eqToks]
+
 def nodeHead : Node → RTok
   | .leaf l => l.rtok
   | .hdr n _ => .unq n
@@ -44,6 +53,19 @@ theorem rRead_node (v : Node) (r : List RTok) : rRead (nodeHead v :: r) = .ok (n
 
 /-! ### skipping a balanced value -/
 
+theorem rSkip_ghosts : ∀ (n : Nat) (r : List RTok) (d : Nat), rSkip (ghostToks n ++ r) d = rSkip r d
+  | 0, r, d => by simp [ghostToks]
+  | n + 1, r, d => by
+      simp only [ghostToks, List.cons_append, rSkip]
+      have := rSkip_ghosts n r d
+      simpa using this
+
+theorem rSkip_key (k : Key) (r : List RTok) (d : Nat) : rSkip (k.rtok :: r) d = rSkip r d := by
+  simp only [Key.rtok]; split <;> simp [rSkip]
+
+theorem rSkip_eqToks (k : Key) (o : Op) (v : Node) (r : List RTok) (d : Nat) : rSkip (eqToks k o v ++ r) d = rSkip r d := by
+  simp only [eqToks]; split <;> simp [rSkip]
+
 mutual
 theorem rSkip_node : ∀ (v : Node) (r : List RTok) (d : Nat), rSkip (lexNode v ++ r) d = rSkip r d
   | .leaf l, r, d => by
@@ -57,11 +79,11 @@ theorem rSkip_node : ∀ (v : Node) (r : List RTok) (d : Nat), rSkip (lexNode v 
   | .hdr n b, r, d => by
       simp only [lexNode, List.cons_append, rSkip]
       exact rSkip_node b r d
-theorem rSkip_fields : ∀ (fs : List (Bytes × Op × Node)) (r : List RTok) (d : Nat), rSkip (lexFields fs ++ r) d = rSkip r d
+theorem rSkip_fields : ∀ (fs : List (Key × Op × Node)) (r : List RTok) (d : Nat), rSkip (lexFields fs ++ r) d = rSkip r d
   | [], r, d => by simp [lexFields]
   | (k, o, v) :: rest, r, d => by
-      simp only [lexFields, List.cons_append, List.append_assoc, rSkip]
-      rw [rSkip_node v _ d, rSkip_fields rest r d]
+      simp only [lexFields, List.cons_append, List.append_assoc]
+      rw [rSkip_ghosts, rSkip_key, rSkip_eqToks, rSkip_node v _ d, rSkip_ghosts, rSkip_fields rest r d]
 theorem rSkip_nodes : ∀ (vs : List Node) (r : List RTok) (d : Nat), rSkip (lexNodes vs ++ r) d = rSkip r d
   | [], r, d => by simp [lexNodes]
   | v :: rest, r, d => by
@@ -94,7 +116,7 @@ theorem lexNode_len : ∀ (v : Node), 1 ≤ (lexNode v).length
   | .hdr n b => by simp [lexNode]
 end
 
-theorem lexFields_len : ∀ (fs : List (Bytes × Op × Node)), fs.length ≤ (lexFields fs).length
+theorem lexFields_len : ∀ (fs : List (Key × Op × Node)), fs.length ≤ (lexFields fs).length
   | [] => by simp
   | (k, o, v) :: r => by
       have := lexFields_len r
@@ -109,7 +131,7 @@ theorem lexNodes_len : ∀ (vs : List Node), vs.length ≤ (lexNodes vs).length
 
 /-! ### well-formedness, header expansion -/
 
-theorem wfFields_mem : ∀ (dfs : List (Bytes × Op × Node)), wfFields dfs = true → ∀ k o v, (k, o, v) ∈ dfs → v.wf = true
+theorem wfFields_mem : ∀ (dfs : List (Key × Op × Node)), wfFields dfs = true → ∀ k o v, (k, o, v) ∈ dfs → v.wf = true
   | [], _, k, o, v, hm => by simp at hm
   | (k0, o0, v0) :: r, h, k, o, v, hm => by
       simp only [wfFields, Bool.and_eq_true] at h
@@ -158,17 +180,22 @@ theorem lexNodes_expand : ∀ (vs : List Node), lexNodes (expandNodes vs) = lexN
   | .arr vs :: r => by simp [expandNodes, lexNodes, lexNodes_expand r]
   | .hdr n b :: r => by simp [expandNodes, lexNodes, lexNode, Leaf.rtok, lexNodes_expand r]
 
-/-- loop iterations a field costs: a header value costs one more (its body is skipped in key position) -/
-def fieldsCost : List (Bytes × Op × Node) → Nat
+/-- loop iterations a field costs: one for each ghost `{}` around it; a header value costs one more
+(its body is skipped in key position) -/
+def fieldsCost : List (Key × Op × Node) → Nat
   | [] => 0
-  | (_, _, v) :: r => (if v.isHdr then 2 else 1) + fieldsCost r
+  | (k, _, v) :: r => k.ghosts + (if v.isHdr then 2 else 1) + k.trail + fieldsCost r
 
-theorem fieldsCost_le : ∀ (fs : List (Bytes × Op × Node)), fieldsCost fs ≤ (lexFields fs).length
+theorem ghostToks_len : ∀ (n : Nat), (ghostToks n).length = 2 * n
+  | 0 => rfl
+  | n + 1 => by simp only [ghostToks, List.length_cons, ghostToks_len n]; omega
+
+theorem fieldsCost_le : ∀ (fs : List (Key × Op × Node)), fieldsCost fs ≤ (lexFields fs).length
   | [] => by simp [fieldsCost]
   | (k, o, v) :: r => by
       have := fieldsCost_le r
       have := lexNode_len v
-      simp only [fieldsCost, lexFields, List.length_cons, List.length_append]
+      simp only [fieldsCost, lexFields, List.length_cons, List.length_append, ghostToks_len]
       split <;> omega
 
 /-! ### the loops -/
@@ -182,17 +209,32 @@ theorem sMapFold_end {σ κ : Type} (root : Bool) (K : σ → RTok → R κ)
     (h : EndsMap root tail rest) : sMapFold root K V (n + 1) tail st = .ok (st, rest) := by
   rcases h with rfl | ⟨rfl, rfl, rfl⟩ <;> simp [sMapFold, rNext]
 
+theorem key_rtok_cases (k : Key) : k.rtok = .unq k.bytes ∨ k.rtok = .quo k.bytes := by
+  simp only [Key.rtok]; split <;> simp
+
+/-- one `key [operator] value` step of the loop: the key may be quoted, the `=` may be missing before a `{` -/
 theorem sMapFold_step {σ κ : Type} (root : Bool) (K : σ → RTok → R κ)
-    (V : σ → κ → RTok → Op → List RTok → R (σ × List RTok)) (n : Nat) (k : Bytes) (o : Op) (v : Node)
+    (V : σ → κ → RTok → Op → List RTok → R (σ × List RTok)) (n : Nat) (k : Key) (o : Op) (v : Node)
     (more : List RTok) (st : σ) :
-    sMapFold root K V (n + 1) (.unq k :: .op o :: (nodeHead v :: (nodeTail v ++ more))) st =
-      match K st (.unq k) with
+    sMapFold root K V (n + 1) (k.rtok :: (eqToks k o v ++ (nodeHead v :: (nodeTail v ++ more)))) st =
+      match K st k.rtok with
       | .error x => .error x
       | .ok kk =>
         match V st kk (nodeHead v) o (nodeTail v ++ more) with
         | .error x => .error x
         | .ok (st', r3) => sMapFold root K V n r3 st' := by
-  rcases nodeHead_cases v with ⟨s, h⟩ | ⟨s, h⟩ | h <;> simp only [sMapFold, rNext, rRead, h] <;> rfl
+  by_cases hc : (k.noEq && decide (o = .eq) && v.isBraced) = true
+  · simp only [Bool.and_eq_true, decide_eq_true_eq] at hc
+    obtain ⟨⟨_, rfl⟩, hb⟩ := hc
+    have hh : nodeHead v = .open_ := by cases v <;> simp_all [Node.isBraced, nodeHead]
+    have he : eqToks k .eq v = [] := by simp_all [eqToks]
+    rw [he, hh]
+    rcases key_rtok_cases k with h | h <;> simp only [sMapFold, rNext, rRead, h, List.nil_append] <;> rfl
+  · have he : eqToks k o v = [.op o] := by simp [eqToks, hc]
+    rw [he]
+    rcases key_rtok_cases k with hk | hk <;>
+      rcases nodeHead_cases v with ⟨s, h⟩ | ⟨s, h⟩ | h <;>
+        simp only [sMapFold, rNext, rRead, h, hk, List.cons_append, List.nil_append] <;> rfl
 
 /-- a container in key position (the body a header value left behind) is skipped -/
 theorem sMapFold_ghost {σ κ : Type} (root : Bool) (K : σ → RTok → R κ)
@@ -216,11 +258,62 @@ theorem sMapFold_ghost {σ κ : Type} (root : Bool) (K : σ → RTok → R κ)
       rw [List.append_assoc, rSkip_nodes]; simp [rSkip]
     rw [h2]
 
+/-- empty `{}` in key position are skipped, one iteration each -/
+theorem sMapFold_ghosts {σ κ : Type} (root : Bool) (K : σ → RTok → R κ)
+    (V : σ → κ → RTok → Op → List RTok → R (σ × List RTok)) (n : Nat) (more : List RTok) (st : σ) :
+    ∀ (g : Nat), sMapFold root K V (g + n) (ghostToks g ++ more) st = sMapFold root K V n more st
+  | 0 => by simp [ghostToks]
+  | g + 1 => by
+      have e : g + 1 + n = (g + n) + 1 := by omega
+      rw [e]
+      simp only [ghostToks, List.cons_append, sMapFold, rNext, rSkip]
+      exact sMapFold_ghosts root K V n more st g
+
+/-- what a value leaves behind (the body of a header value) is skipped in key position -/
+theorem sMapFold_left {σ κ : Type} (root : Bool) (K : σ → RTok → R κ)
+    (V : σ → κ → RTok → Op → List RTok → R (σ × List RTok)) (v : Node) (hw : v.wf = true) (m : Nat)
+    (more : List RTok) (st : σ) :
+    sMapFold root K V (m + (if v.isHdr then 1 else 0)) (nodeLeft v ++ more) st = sMapFold root K V m more st := by
+  cases v with
+  | hdr n' b =>
+    have hb := hdr_wf_body n' b hw
+    simp only [Node.isHdr, ↓reduceIte, nodeLeft]
+    exact sMapFold_ghost root _ _ m b hb.2.1 _ st
+  | leaf l => simp [Node.isHdr, nodeLeft]
+  | obj fs' => simp [Node.isHdr, nodeLeft]
+  | arr vs => simp [Node.isHdr, nodeLeft]
+
+/-- one field of a field list: its ghosts, key, operator (or none) and value head -/
+theorem sMapFold_field {σ κ : Type} (root : Bool) (K : σ → RTok → R κ)
+    (V : σ → κ → RTok → Op → List RTok → R (σ × List RTok)) (k : Key) (o : Op) (v : Node)
+    (r : List (Key × Op × Node)) (tail : List RTok) (x : Nat) (st : σ) :
+    sMapFold root K V (k.ghosts + (x + 1)) (lexFields ((k, o, v) :: r) ++ tail) st =
+      match K st k.rtok with
+      | .error e => .error e
+      | .ok kk =>
+        match V st kk (nodeHead v) o (nodeTail v ++ (nodeLeft v ++ (ghostToks k.trail ++ (lexFields r ++ tail)))) with
+        | .error e => .error e
+        | .ok (st', r3) => sMapFold root K V x r3 st' := by
+  simp only [lexFields, lexNode_cons, List.cons_append, List.append_assoc]
+  rw [sMapFold_ghosts, sMapFold_step]
+
+/-- after the value: the body a header value left, the trailing ghosts, then the rest of the list -/
+theorem sMapFold_after {σ κ : Type} (root : Bool) (K : σ → RTok → R κ)
+    (V : σ → κ → RTok → Op → List RTok → R (σ × List RTok)) (k : Key) (v : Node) (hw : v.wf = true) (m : Nat)
+    (more : List RTok) (st : σ) :
+    sMapFold root K V ((k.trail + m) + (if v.isHdr then 1 else 0)) (nodeLeft v ++ (ghostToks k.trail ++ more)) st =
+      sMapFold root K V m more st := by
+  rw [sMapFold_left root K V v hw, sMapFold_ghosts]
+
+theorem fieldsCost_fuel (k : Key) (v : Node) (c n : Nat) (h : k.ghosts + (if v.isHdr then 2 else 1) + k.trail + c < n) :
+    ∃ m, c < m ∧ n = k.ghosts + (((k.trail + m) + (if v.isHdr then 1 else 0)) + 1) := by
+  refine ⟨n - (k.ghosts + (if v.isHdr then 2 else 1) + k.trail), ?_, ?_⟩ <;> split at h <;> simp_all <;> omega
+
 /-- struct loop over the tokens of a field list -/
 theorem sMapFold_struct (enc : Enc) (fs : List (Bytes × Ty)) (f : Nat) (root : Bool) (tail rest : List RTok)
     (hend : EndsMap root tail rest) :
-    ∀ (dfs : List (Bytes × Op × Node)) (seen : List (Nat × Val)) (n : Nat), fieldsCost dfs < n → wfFields dfs = true →
-    (∀ k o v, (k, o, v) ∈ dfs → ∀ i t, lookupIdx (decode enc k) fs 0 = some (i, t) →
+    ∀ (dfs : List (Key × Op × Node)) (seen : List (Nat × Val)) (n : Nat), fieldsCost dfs < n → wfFields dfs = true →
+    (∀ k o v, (k, o, v) ∈ dfs → ∀ i t, lookupIdx (decode enc k.bytes) fs 0 = some (i, t) →
       ∀ rest', sde enc (f + 1) t (nodeHead v) o (nodeTail v ++ rest') = (valueOfN enc (f + 1) t o v).map (fun x => (x, rest'))) →
     sMapFold root (sStructKey enc fs) (sStructVal (sde enc (f + 1))) n (lexFields dfs ++ tail) seen =
       (structVals enc fs (valueOfN enc (f + 1)) dfs seen).map (fun s => (s, rest))
@@ -230,28 +323,18 @@ theorem sMapFold_struct (enc : Enc) (fs : List (Bytes × Ty)) (f : Nat) (root : 
   | (k, o, v) :: r, seen, n, hn, hw, H => by
       simp only [wfFields, Bool.and_eq_true] at hw
       simp only [fieldsCost] at hn
-      obtain ⟨m, rfl⟩ : ∃ m, n = m + (if v.isHdr then 2 else 1) := ⟨n - (if v.isHdr then 2 else 1), by omega⟩
-      have ih := fun seen' => sMapFold_struct enc fs f root tail rest hend r seen' m (by omega) hw.2
+      obtain ⟨m, hm, rfl⟩ := fieldsCost_fuel k v _ n hn
+      have ih := fun seen' => sMapFold_struct enc fs f root tail rest hend r seen' m hm hw.2
         (fun k' o' v' hm => H k' o' v' (List.mem_cons_of_mem _ hm))
-      have hfuel : m + (if v.isHdr then 2 else 1) = (m + (if v.isHdr then 1 else 0)) + 1 := by split <;> omega
-      have hleft' : ∀ seen', sMapFold root (sStructKey enc fs) (sStructVal (sde enc (f + 1))) (m + (if v.isHdr then 1 else 0))
-          (nodeLeft v ++ (lexFields r ++ tail)) seen' = sMapFold root (sStructKey enc fs) (sStructVal (sde enc (f + 1))) m (lexFields r ++ tail) seen' := by
-        intro seen'
-        cases v with
-        | hdr n' b =>
-          have hb := hdr_wf_body n' b hw.1
-          simp only [Node.isHdr, ↓reduceIte, nodeLeft]
-          exact sMapFold_ghost root _ _ m b hb.2.1 _ seen'
-        | leaf l => simp [Node.isHdr, nodeLeft]
-        | obj fs' => simp [Node.isHdr, nodeLeft]
-        | arr vs => simp [Node.isHdr, nodeLeft]
-      simp only [lexFields, lexNode_cons, List.cons_append, List.append_assoc]
-      rw [hfuel, sMapFold_step]
+      rw [sMapFold_field]
+      have hkn : sStructKey enc fs seen k.rtok = sStructKey enc fs seen (.unq k.bytes) := by
+        rcases key_rtok_cases k with h | h <;> rw [h] <;> rfl
+      rw [hkn]
       simp only [sStructKey, sKeyName, sStr, structVals]
-      cases hl : lookupIdx (decode enc k) fs 0 with
+      cases hl : lookupIdx (decode enc k.bytes) fs 0 with
       | none =>
         simp only [sStructVal, sde_ign_node, Except.map]
-        rw [hleft']; exact ih seen
+        rw [sMapFold_after root _ _ k v hw.1]; exact ih seen
       | some it =>
         obtain ⟨i, t⟩ := it
         by_cases hs : (seenGet i seen).isSome
@@ -260,12 +343,12 @@ theorem sMapFold_struct (enc : Enc) (fs : List (Bytes × Ty)) (f : Nat) (root : 
           rw [H k o v (List.mem_cons_self ..) i t hl]
           cases valueOfN enc (f + 1) t o v with
           | error e => simp [Except.map]
-          | ok x => simp only [Except.map]; rw [hleft']; exact ih _
+          | ok x => simp only [Except.map]; rw [sMapFold_after root _ _ k v hw.1]; exact ih _
 
 /-- map loop over the tokens of a field list -/
 theorem sMapFold_map (enc : Enc) (t : Ty) (f : Nat) (root : Bool) (tail rest : List RTok)
     (hend : EndsMap root tail rest) :
-    ∀ (dfs : List (Bytes × Op × Node)) (acc : List (Val × Val)) (n : Nat), fieldsCost dfs < n → wfFields dfs = true →
+    ∀ (dfs : List (Key × Op × Node)) (acc : List (Val × Val)) (n : Nat), fieldsCost dfs < n → wfFields dfs = true →
     (∀ k o v, (k, o, v) ∈ dfs →
       ∀ rest', sde enc f t (nodeHead v) o (nodeTail v ++ rest') = (valueOfN enc f t o v).map (fun x => (x, rest'))) →
     sMapFold root (fun _ k => sKeyName enc k) (sMapVal (sde enc f) t) n (lexFields dfs ++ tail) acc =
@@ -276,29 +359,17 @@ theorem sMapFold_map (enc : Enc) (t : Ty) (f : Nat) (root : Bool) (tail rest : L
   | (k, o, v) :: r, acc, n, hn, hw, H => by
       simp only [wfFields, Bool.and_eq_true] at hw
       simp only [fieldsCost] at hn
-      obtain ⟨m, rfl⟩ : ∃ m, n = m + (if v.isHdr then 2 else 1) := ⟨n - (if v.isHdr then 2 else 1), by omega⟩
-      have ih := fun acc' => sMapFold_map enc t f root tail rest hend r acc' m (by omega) hw.2
+      obtain ⟨m, hm, rfl⟩ := fieldsCost_fuel k v _ n hn
+      have ih := fun acc' => sMapFold_map enc t f root tail rest hend r acc' m hm hw.2
         (fun k' o' v' hm => H k' o' v' (List.mem_cons_of_mem _ hm))
-      have hfuel : m + (if v.isHdr then 2 else 1) = (m + (if v.isHdr then 1 else 0)) + 1 := by split <;> omega
-      have hleft' : ∀ acc', sMapFold root (fun _ k => sKeyName enc k) (sMapVal (sde enc f) t) (m + (if v.isHdr then 1 else 0))
-          (nodeLeft v ++ (lexFields r ++ tail)) acc' = sMapFold root (fun _ k => sKeyName enc k) (sMapVal (sde enc f) t) m (lexFields r ++ tail) acc' := by
-        intro acc'
-        cases v with
-        | hdr n' b =>
-          have hb := hdr_wf_body n' b hw.1
-          simp only [Node.isHdr, ↓reduceIte, nodeLeft]
-          exact sMapFold_ghost root _ _ m b hb.2.1 _ acc'
-        | leaf l => simp [Node.isHdr, nodeLeft]
-        | obj fs' => simp [Node.isHdr, nodeLeft]
-        | arr vs => simp [Node.isHdr, nodeLeft]
-      simp only [lexFields, lexNode_cons, List.cons_append, List.append_assoc]
-      rw [hfuel, sMapFold_step]
-      have hk : sKeyName enc (.unq k) = .ok (decode enc k) := rfl
+      rw [sMapFold_field]
+      have hk : sKeyName enc k.rtok = .ok (decode enc k.bytes) := by
+        rcases key_rtok_cases k with h | h <;> rw [h] <;> rfl
       simp only [hk, mapVals, sMapVal]
       rw [H k o v (List.mem_cons_self ..)]
       cases valueOfN enc f t o v with
       | error e => simp [Except.map]
-      | ok x => simp only [Except.map]; rw [hleft']; exact ih _
+      | ok x => simp only [Except.map]; rw [sMapFold_after root _ _ k v hw.1]; exact ih _
 
 /-- sequence loop over the tokens of a value list without header values -/
 theorem sSeqFold_nodes (elemF : RTok → List RTok → R (Val × List RTok)) (valF : Node → R Val) (rest : List RTok) :
@@ -322,10 +393,45 @@ theorem sSeqFold_nodes (elemF : RTok → List RTok → R (Val × List RTok)) (va
           rw [ih]
           cases seqVals valF r <;> simp [Except.map]
 
+/-- tuple loop over the tokens of a value list without header values: as many elements as the tuple has
+types are read; what is left of the list stays in the stream -/
+theorem sTupFold_nodes (elemF : Ty → RTok → List RTok → R (Val × List RTok)) (valF : Ty → Node → R Val) (rest : List RTok) :
+    ∀ (ts : List Ty) (xs : List Node), (∀ x, x ∈ xs → x.isHdr = false) →
+    (∀ t x, (t, x) ∈ List.zip ts xs → ∀ rest', elemF t (nodeHead x) (nodeTail x ++ rest') = (valF t x).map (fun v => (v, rest'))) →
+    sTupFold elemF ts (lexNodes xs ++ .close :: rest) =
+      (tupVals valF ts xs).map (fun vs => (vs, lexNodes (xs.drop ts.length) ++ .close :: rest))
+  | [], xs, _, _ => by simp [sTupFold, tupVals, Except.map]
+  | t :: r, [], _, _ => by simp [sTupFold, tupVals, lexNodes, rRead, Except.map]
+  | t :: r, x :: xs, hh, H => by
+      have ih := sTupFold_nodes elemF valF rest r xs (fun v' hm => hh v' (List.mem_cons_of_mem _ hm))
+        (fun t' x' hm => H t' x' (by simp [List.zip_cons_cons, hm]))
+      have H1 := H t x (by simp [List.zip_cons_cons])
+      have hl := nodeLeft_nil x (hh x (List.mem_cons_self ..))
+      simp only [lexNodes, lexNode_cons, hl, List.append_nil, List.cons_append, List.append_assoc, tupVals,
+        List.length_cons, List.drop_succ_cons]
+      rcases nodeHead_cases x with ⟨s, h⟩ | ⟨s, h⟩ | h <;>
+      · rw [h] at H1 ⊢
+        simp only [sTupFold, rRead, H1]
+        cases valF t x with
+        | error e => simp [Except.map]
+        | ok v =>
+          simp only [Except.map]
+          rw [ih]
+          cases tupVals valF r xs <;> simp [Except.map]
+
 end Jomini.TextDe
 
 namespace Jomini.TextDe
 open Jomini Jomini.TextDoc
+
+theorem mem_heightTs : ∀ (ts : List Ty) (t : Ty), t ∈ ts → t.height ≤ Ty.heightTs ts
+  | [], t, h => by simp at h
+  | t0 :: r, t, h => by
+      simp only [List.mem_cons] at h
+      rcases h with rfl | h
+      · simp only [Ty.heightTs]; omega
+      · have := mem_heightTs r t h
+        simp only [Ty.heightTs]; omega
 
 theorem lookupIdx_height (name : Bytes) : ∀ (fs : List (Bytes × Ty)) (j i : Nat) (t : Ty),
     lookupIdx name fs j = some (i, t) → t.height ≤ Ty.heightFs fs
@@ -541,6 +647,19 @@ theorem sde_node (enc : Enc) : ∀ (f : Nat) (ty : Ty) (o : Op) (v : Node) (rest
     | @stOnLeaf fs l =>
       obtain ⟨bytes, q⟩ := l
       cases q <;> simp [nodeHead, nodeTail, Leaf.rtok, sde, valueOfN, Except.map]
+    | @tup ts vs hlen hall =>
+      have hwn : wfNodes vs = true := by simpa [Node.wf] using hwf
+      have hex := lexNodes_expand vs
+      have := sTupFold_nodes (fun t tok r => sde enc f t tok .eq r) (fun t x => valueOfN enc f t .eq x) rest ts (expandNodes vs)
+        (fun v hm => (expand_mem vs hwn v hm).2)
+        (fun t x hm rest' => ih t .eq x rest' (hall t x hm) (expand_mem vs hwn x (List.of_mem_zip hm).2).1
+          (by have := mem_heightTs ts t (List.of_mem_zip hm).1; simp [Ty.height] at hh; omega))
+      simp only [nodeHead, nodeTail]
+      rw [sde, valueOfN]
+      rw [hex] at this
+      simp only [List.append_assoc, List.singleton_append] at this ⊢
+      rw [this, List.drop_of_length_le hlen]
+      cases tupVals (fun t x => valueOfN enc f t Op.eq x) ts (expandNodes vs) <;> simp [Except.map, lexNodes, rRead]
 
 /-- the stream path on the reader tokens of a document yields the document's value -/
 theorem deStream_eq_valueOf (enc : Enc) (ty : Ty) (d : Doc) (hroot : Ty.isRoot ty = true)
